@@ -207,12 +207,13 @@ CHECKS['C06'] = dict(
          'genuine defects (trailing backslash taken into a run; a pending "!" surviving an escape or a code span), '
          'repaired in /repo. The CHOICE of matches is the specification\'s: an independent formal reading of CommonMark '
          '0.30 section 6.2 + appendix in Lean (Spec/Emphasis.lean: runs, flanking, underscore rules, rule of three, '
-         'openers_bottom) and the refinement theorem C06_emphasis_is_spec_partial - for every text without backslash, '
+         'openers_bottom; Spec/EmphasisEsc.lean adds backslash escapes) and the refinement theorems '
+         'C06_emphasis_is_spec_partial / C06_emphasis_is_spec_esc_partial - for every text without '
          'backquote, brackets, < and & (and without eight exotic whitespace code points, C06_whitespace_deviation) the '
          'matches of find_core_tokens are, one for one and in order, the specification\'s emphasis nodes; the opener '
          'bottoms never change a result (C06_bottoms_sound). The theorem is re-checked on the real find_core_tokens '
          '(c06.theorem), the Lean specification is compared with the independent Python reading (spec.emph). Texts '
-         'with backslash escapes, "!" and "[": exhaustive small-alphabet and random exploration against the Python '
+         'with "!" and "[": exhaustive small-alphabet and random exploration against the Python '
          'oracle. Model tied to the code by an inline-level correspondence (token tree with attributes) on the same '
          'exhaustive strings.',
     note='Trusted: Lean kernel (axioms propext/Classical.choice/Quot.sound at most); inline correspondence harness; '
